@@ -1043,6 +1043,34 @@ func queries(keys []string, win int, extra []Hex, pathological bool) []string {
 		add(k + "\x00")
 		add(k + "\xff")
 		add(k + k + "x")
+		// two bytes changed in opposite directions, 1 or 5 bytes apart (the first
+		// difference decides the order, whatever follows)
+		for _, p := range pos {
+			for _, d := range []int{1, 5} {
+				if p+d >= len(k) {
+					continue
+				}
+				b := []byte(k)
+				b[p]++
+				b[p+d]--
+				add(string(b))
+				b[p] -= 2
+				b[p+d] += 2
+				add(string(b))
+			}
+		}
+		// crossovers with the next indexed key and with a far one: the head of one
+		// key continued by the tail of another (absent siblings from the same universe)
+		for _, o := range []string{keys[(i+1)%n], keys[(n-1-i+n)%n]} {
+			if o == k {
+				continue
+			}
+			for _, p := range pos {
+				if p > 0 && p < len(o) {
+					add(k[:p] + o[p:])
+				}
+			}
+		}
 	}
 	add("")
 	for _, l := range []int{1, 2, maxLen, maxLen + 1, 64} {
